@@ -586,3 +586,24 @@ func (g *CFG) describePath(p *Prog, path []*Block) string {
 	}
 	return s
 }
+
+// DominatingEdges returns the conditional edges that every path from the
+// entry to loc must traverse (structural dominance: deleting the edge makes
+// loc unreachable). Unlike must-facts this ignores intervening writes; rules
+// use it where the tested operands are known not to change in between.
+func (g *CFG) DominatingEdges(loc Loc) []*Edge {
+	var out []*Edge
+	for _, b := range g.Blocks {
+		for _, e := range b.Succs {
+			if e.Cond == nil {
+				continue
+			}
+			cut := e
+			reach := g.Reach([]*Block{g.Entry}, func(x *Edge) bool { return x != cut })
+			if !reach[loc.B] {
+				out = append(out, e)
+			}
+		}
+	}
+	return out
+}
